@@ -491,7 +491,9 @@ func (c *SCIONClient) measureClockOffsetSCION(ctx context.Context, mtrcs *scionC
 								Header:     slayers.PacketAuthOption{EndToEndOption: authOpt},
 								ScionLayer: &scionLayer,
 								PldType:    slayers.L4UDP,
-								Pld:        buf[len(buf)-int(udpLayer.Length):],
+								// the UDP header and the payload it delimits, i.e., the bytes decoded and
+								// evaluated here: not necessarily the last udpLayer.Length bytes of the datagram
+								Pld: udpLayer.Contents[:len(udpLayer.Contents)+len(udpLayer.Payload)],
 							},
 							c.Auth.buf,
 							c.Auth.mac,
